@@ -35,6 +35,8 @@ structure Scan where
   seen   : List Seen := []
   maxTs  : Option Int := none
   firsts : List (Key × Int × Int × List Nat) := []   -- delivered sessions: key, start, stop, current ids (updated by late deliveries)
+  forcedIds : List Nat := []                         -- rows of sessions delivered by a manual flush (those are not kept open for late rows)
+  expect : List (Key × Nat) := []                    -- late rows that fell into a delivered session still inside the allowance: a re-delivery must follow
   err    : Option String := none
   deriving Repr
 
@@ -82,7 +84,7 @@ def checkFirst (c : Cfg) (s : Scan) (k : Key) (start stop : Int) (ids : List Nat
   let s7 := if s.seen.all (fun r => !(r.key == k && r.onTime && !r.corrupt && !ids.contains r.id && !(emittedIds s).contains r.id &&
                                       decide (start - c.timeout < r.ts) && decide (r.ts < stop)))
             then s6 else fail s6 "on-time-row-within-timeout-left-out"
-  { s7 with firsts := s7.firsts ++ [(k, start, stop, ids)] }
+  { s7 with firsts := s7.firsts ++ [(k, start, stop, ids)], forcedIds := if forced then s7.forcedIds ++ ids else s7.forcedIds }
 
 def checkLate (c : Cfg) (s : Scan) (k : Key) (start stop : Int) (ids : List Nat) : Scan :=
   let s1 := if 0 < c.lateness then s else fail s "late-update-without-allowance"
@@ -103,11 +105,30 @@ def checkLate (c : Cfg) (s : Scan) (k : Key) (start stop : Int) (ids : List Nat)
           | none => d
         | none => fail s2 "late-update-unknown-row"
       | none => s2
-    { s3 with firsts := s3.firsts.map (fun g => if g == f then (k, start, stop, ids) else g) }
+    { s3 with firsts := s3.firsts.map (fun g => if g == f then (k, start, stop, ids) else g),
+              expect := s3.expect.filter (fun e => !(e.1 == k && ids.contains e.2)) }
+
+/-- a late row that falls in a session of its key that was delivered by the watermark and is still inside the allowance
+(watermark at its arrival < end + lateness) must be re-delivered with it -/
+def expectation (c : Cfg) (s : Scan) (k : Key) (id : Nat) (ts : Int) : List (Key × Nat) :=
+  if c.lateness ≤ 0 then [] else
+  match s.seen.getLast? with
+  | some r =>
+    if r.id = id ∧ !r.onTime ∧ !r.corrupt then
+      match r.wmAtArrival with
+      | some w =>
+        if s.firsts.any (fun f => f.1 == k && decide (f.2.1 ≤ ts) && decide (ts < f.2.2.1) && decide (w < f.2.2.1 + c.lateness) &&
+                                   !(f.2.2.2.any (fun i => s.forcedIds.contains i)))
+        then [(k, id)] else []
+      | none => []
+    else []
+  | none => []
 
 def step (c : Cfg) (s : Scan) : Ev → Scan
   | .arr _ _ none => s
-  | .arr k id (some ts) => stepArr c s k id ts
+  | .arr k id (some ts) =>
+    let s1 := stepArr c s k id ts
+    { s1 with expect := s1.expect ++ expectation c s1 k id ts }
   | .emit false k a b ids => checkFirst c s k a b ids
   | .forced k a b ids => checkFirst c s k a b ids true
   | .emit true k a b ids => checkLate c s k a b ids
@@ -142,8 +163,9 @@ def complete (c : Cfg) (s : Scan) : Option String :=
 
 def holds (c : Cfg) (evs : List Ev) (flushed : Bool) : Option String :=
   let s := scan c evs
-  match s.err with
-  | some e => some e
-  | none => if flushed then complete c s else none
+  match s.err, s.expect with
+  | some e, _ => some e
+  | none, _ :: _ => some "late-row-inside-allowance-not-redelivered"
+  | none, [] => if flushed then complete c s else none
 
 end SessSpec
